@@ -152,6 +152,10 @@ func (c *Config) Unpack(to interface{}, options ...Option) error {
 	if !isValid {
 		return raisePointerRequired(vTo)
 	}
+	if vTo.IsNil() {
+		// a nil pointer or a nil map passed by value: nothing to unpack into
+		return raiseNil(ErrNilValue)
+	}
 
 	return reifyInto(opts, vTo, c)
 }
@@ -506,6 +510,11 @@ func reifyMergeValue(
 		sub, err := val.toConfig(opts.opts)
 		if err != nil {
 			return reflect.Value{}, raiseExpectedObject(opts.opts, val)
+		}
+		if old.IsNil() && !old.CanSet() {
+			// a nil map held in a map or in an interface can not be
+			// replaced in place
+			old = settableCopy(old)
 		}
 		return old, reifyMap(opts.opts, old, sub, opts.validators)
 
